@@ -118,6 +118,9 @@ def run_ops(model, objs, ops):
             res.append([dump(objs)])
         elif t == 9:
             res.append([bool(model.has_contradiction())])
+        elif t == 13:
+            model.add_knowledge(objs[op[1]])
+            res.append([dump(objs)])
         else:
             raise ValueError("unknown op")
     return res
